@@ -265,7 +265,13 @@ def transcript_spec(draw, max_exons=5, coding=None, max_len=10, zero_gap_cds=Tru
                 offset, fs = 0, False
                 frames = rm.frames_from_offset(cds_blocks, strand, 0)
                 if not _ok():
-                    cds_blocks = [[b[0], min(b[1], cds_blocks[k + 1][0])] if k + 1 < len(cds_blocks) else b for k, b in enumerate(cds_blocks)]
+                    merged_ = []
+                    for b in cds_blocks:
+                        if merged_ and b[0] < merged_[-1][1]:
+                            merged_[-1][1] = max(merged_[-1][1], b[1])   # the two overlapping blocks become the one block they were cut from
+                        else:
+                            merged_.append(list(b))
+                    cds_blocks = merged_
                     frames = rm.frames_from_offset(cds_blocks, strand, 0)
                     overlapped = False
         sp.update({"cds": cds_blocks, "frames": frames, "offset": offset, "frameshift": fs, "cds_i": i, "cds_j": j})
